@@ -29,9 +29,9 @@ import (
 
 type c01Seen struct {
 	method, ruri, host, proto string
-	header                   http.Header
-	body                     []byte
-	bodyErr                  error
+	header                    http.Header
+	body                      []byte
+	bodyErr                   error
 }
 
 type c01Origin struct {
@@ -157,6 +157,14 @@ type c01E2ECase struct {
 	pseudo     []string
 	useBase    bool
 	retries    int // the origin answers 503 to the first `retries` attempts; the same *Request is retried
+	// round 6 — multi-line Cookie: field lines given through SetHeader + Headers.Add ("Cookie"),
+	// through SetHeaderNonCanonical("cookie", …) called once per line (it appends) and at client
+	// level (c.Headers["Cookie"]), alone and together with cookie objects (SetCookies / c.Cookies)
+	ncCookie []string
+	// round 6 — edit between attempts: what a retry hook changes on the SAME *Request before the
+	// next attempt (nil = nothing); the case after the edits is `edited`
+	edit   string
+	edited *c01E2ECase
 }
 
 var c01E2EHdrNames = []string{"User-Agent", "Accept", "X-A", "X-B", "X-C", "X-Long-Header-Name", "Content-Type", "Authorization", "Referer", "Origin", "Accept-Language", "Cache-Control", "Pragma",
@@ -200,7 +208,7 @@ func c01GenE2E(r *rand.Rand) *c01E2ECase {
 			k := verifh.Pick(r, c01E2EHdrNames)
 			nv := 1
 			if r.Intn(6) == 0 {
-				nv = 2
+				nv = 2 + r.Intn(3) // several field lines of one key
 			}
 			var vs []string
 			for j := 0; j < nv; j++ {
@@ -236,6 +244,24 @@ func c01GenE2E(r *rand.Rand) *c01E2ECase {
 		return out
 	}
 	tc.cCk, tc.rCk = ck(2), ck(3)
+	// Cookie given as field lines: at request level (SetHeader + Headers.Add), under the
+	// non-canonical spelling (appending setter), at client level; with or without cookie objects
+	if r.Intn(4) == 0 {
+		switch r.Intn(6) {
+		case 0, 1, 2:
+			tc.rHdr["Cookie"] = verifh.C01GenLines(r, "Cookie", nil)
+		case 3:
+			tc.ncCookie = verifh.C01GenLines(r, "cookie", nil)
+		case 4:
+			tc.cHdr["Cookie"] = verifh.C01GenLines(r, "Cookie", nil)
+		default:
+			tc.rHdr["Cookie"] = verifh.C01GenLines(r, "Cookie", nil)
+			tc.ncCookie = verifh.C01GenLines(r, "cookie", nil)
+		}
+		if r.Intn(2) == 0 {
+			tc.cCk, tc.rCk = nil, nil // lines alone: nothing folds them on the way
+		}
+	}
 	if r.Intn(5) == 0 {
 		tc.hostHdr = verifh.Pick(r, []string{"virtual.example", "virtual.example:8443", "UPPER.example"})
 	}
@@ -288,7 +314,109 @@ func c01GenE2E(r *rand.Rand) *c01E2ECase {
 	if r.Intn(4) == 0 && tc.bodyKind != "reader" {
 		tc.retries = 1 + r.Intn(2)
 	}
+	if tc.retries > 0 && r.Intn(2) == 0 {
+		c01GenE2EEdit(r, tc)
+	}
 	return tc
+}
+
+// c01GenE2EEdit (round 6): the description of the SAME *Request is changed by a retry hook before
+// the second attempt — one field family at a time or several: path parameter values (request /
+// client level), query parameters, a header, a cookie, the body, the URL template. Every later
+// attempt must be the request the CURRENT description stands for.
+func c01GenE2EEdit(r *rand.Rand, tc *c01E2ECase) {
+	e := *tc
+	e.edit, e.edited = "", nil
+	fams := []string{"rpath", "cpath", "query", "header", "cookie", "body", "url"}
+	var picked []string
+	for i, n := 0, 1+r.Intn(2); i < n; i++ {
+		if f := verifh.Pick(r, fams); len(picked) == 0 || picked[0] != f {
+			picked = append(picked, f)
+		}
+	}
+	has := func(f string) bool {
+		for _, p := range picked {
+			if p == f {
+				return true
+			}
+		}
+		return false
+	}
+	cp := func(m map[string]string) map[string]string {
+		out := map[string]string{}
+		for k, v := range m {
+			out[k] = v
+		}
+		return out
+	}
+	if has("rpath") {
+		if len(tc.rPath) == 0 {
+			picked = append(picked, "query")
+		} else {
+			e.rPath = cp(tc.rPath)
+			for k := range e.rPath {
+				e.rPath[k] = c01RandValue(r)
+			}
+		}
+	}
+	if has("cpath") {
+		if len(tc.cPath) == 0 {
+			picked = append(picked, "header")
+		} else {
+			e.cPath = cp(tc.cPath)
+			for k := range e.cPath {
+				e.cPath[k] = c01RandValue(r)
+			}
+		}
+	}
+	if has("query") {
+		e.rQuery = url.Values{}
+		for k, vs := range tc.rQuery {
+			e.rQuery[k] = vs
+		}
+		k := verifh.Pick(r, []string{"a", "b", "edited", "page"})
+		for ek := range tc.rQuery {
+			if r.Intn(2) == 0 {
+				k = ek
+			}
+			break
+		}
+		e.rQuery[k] = []string{c01RandValue(r)}
+	}
+	if has("header") {
+		e.rHdr = tc.rHdr.Clone()
+		k := verifh.Pick(r, []string{"X-Edit", "X-A", "X-1", "Accept"})
+		e.rHdr[k] = []string{verifh.Pick(r, []string{"edited", "second try", "v2"})}
+	}
+	if has("cookie") {
+		// SetCookies appends to Request.Cookies, which by then holds request + client cookies
+		e.cCk = append(append([]*http.Cookie(nil), tc.cCk...), &http.Cookie{Name: "edit", Value: verifh.Pick(r, []string{"e1", "e2"})})
+	}
+	if has("body") {
+		if tc.bodyKind == "none" {
+			if !has("header") {
+				picked = append(picked, "header")
+				e.rHdr = tc.rHdr.Clone()
+				e.rHdr["X-Edit"] = []string{"edited"}
+			}
+		} else {
+			// an in-memory body without Content-Type gets a sniffed one (C17): name one in both descriptions
+			if tc.rHdr.Get("Content-Type") == "" && tc.cHdr.Get("Content-Type") == "" {
+				tc.rHdr["Content-Type"] = []string{"application/octet-stream"}
+				if e.rHdr != nil {
+					e.rHdr["Content-Type"] = []string{"application/octet-stream"}
+				}
+			}
+			e.bodyKind = "bytes"
+			e.body = c01GenBody(verifh.Pick(r, []int{0, 1, 100, 4097, 16385}), 1+r.Intn(250), r.Intn(251))
+		}
+	}
+	if has("url") {
+		e.path = "/edited" + tc.path
+	}
+	sort.Strings(picked)
+	e.edit = strings.Join(picked, "+")
+	tc.edit, tc.edited = e.edit, &e
 }
 
 var c01ViewDrop = map[string]bool{"host": true, "content-length": true, "transfer-encoding": true, "connection": true, "keep-alive": true, "proxy-connection": true,
@@ -389,6 +517,11 @@ func c01Expected(tc *c01E2ECase) (method, ruri string, lines []string, body []by
 	for k, v := range tc.nonCanon {
 		hdr[k] = append(hdr[k], v)
 	}
+	// Cookie field lines (either spelling) and cookie objects together are ONE cookie-string
+	var crumbs []string
+	crumbs = append(crumbs, verifh.C01Crumbs(hdr["Cookie"])...)
+	crumbs = append(crumbs, verifh.C01Crumbs(tc.ncCookie)...)
+	delete(hdr, "Cookie")
 	for k, vs := range hdr {
 		lk := strings.ToLower(k)
 		if lk == "user-agent" {
@@ -405,7 +538,6 @@ func c01Expected(tc *c01E2ECase) (method, ruri string, lines []string, body []by
 	if _, ok := hdr["User-Agent"]; !ok {
 		lines = append(lines, "user-agent: req/v3 (https://github.com/imroc/req)")
 	}
-	var crumbs []string
 	for _, c := range append(append([]*http.Cookie(nil), tc.rCk...), tc.cCk...) {
 		v := c.Value
 		var b strings.Builder
@@ -421,6 +553,11 @@ func c01Expected(tc *c01E2ECase) (method, ruri string, lines []string, body []by
 		crumbs = append(crumbs, c.Name+"="+v)
 	}
 	if len(crumbs) > 0 {
+		if len(tc.ncCookie) > 0 {
+			// two keys ("Cookie", "cookie") of a Go map: their relative order on the wire is not
+			// described by the calls — the cookie-pairs are compared as a multiset (c01SortCookies)
+			sort.Strings(crumbs)
+		}
 		lines = append(lines, "cookie: "+strings.Join(crumbs, "; "))
 	}
 	sort.Strings(lines)
@@ -429,6 +566,30 @@ func c01Expected(tc *c01E2ECase) (method, ruri string, lines []string, body []by
 		body = nil
 	}
 	return method, ruri, lines, body, true
+}
+
+// c01SortCookies sorts the cookie-pairs of the view's "cookie: " line (multiset comparison).
+func c01SortCookies(view string) string {
+	ls := strings.Split(view, "\n")
+	for i, l := range ls {
+		if strings.HasPrefix(l, "cookie: ") {
+			cs := strings.Split(strings.TrimPrefix(l, "cookie: "), "; ")
+			sort.Strings(cs)
+			ls[i] = "cookie: " + strings.Join(cs, "; ")
+		}
+	}
+	return strings.Join(ls, "\n")
+}
+
+// c01CookieLinesFoldedClass: the input class of finding C01-4 — the Request carries SEVERAL field
+// lines under the key "Cookie" (its own, or the client's filled in) AND at least one cookie object:
+// http.Request.AddCookie rewrites the field from its FIRST line only.
+func c01CookieLinesFoldedClass(tc *c01E2ECase) bool {
+	lines := tc.rHdr["Cookie"]
+	if len(lines) == 0 {
+		lines = tc.cHdr["Cookie"]
+	}
+	return len(lines) > 1 && len(tc.rCk)+len(tc.cCk) > 0
 }
 
 func c01EscapeInvalid(seg string) string {
@@ -468,6 +629,9 @@ func c01FireE2E(c *Client, o *c01Origin, tc *c01E2ECase) error {
 	for k, v := range tc.nonCanon {
 		r.SetHeaderNonCanonical(k, v)
 	}
+	for _, l := range tc.ncCookie {
+		r.SetHeaderNonCanonical("cookie", l)
+	}
 	if tc.hostHdr != "" {
 		r.SetHeader("Host", tc.hostHdr)
 	}
@@ -498,6 +662,48 @@ func c01FireE2E(c *Client, o *c01Origin, tc *c01E2ECase) error {
 		r.SetRetryCount(tc.retries).
 			SetRetryInterval(func(*Response, int) time.Duration { return 0 }).
 			SetRetryCondition(func(resp *Response, err error) bool { return err == nil && resp != nil && resp.StatusCode == 503 })
+		if e := tc.edited; e != nil {
+			done := false
+			r.SetRetryHook(func(resp *Response, _ error) {
+				if done {
+					return
+				}
+				done = true
+				q := resp.Request
+				for _, f := range strings.Split(e.edit, "+") {
+					switch f {
+					case "rpath":
+						q.SetPathParams(e.rPath)
+					case "cpath":
+						c.PathParams = e.cPath
+					case "query":
+						for k, vs := range e.rQuery {
+							if len(vs) == 1 && (len(tc.rQuery[k]) != 1 || tc.rQuery[k][0] != vs[0]) {
+								q.SetQueryParam(k, vs[0])
+							}
+						}
+					case "header":
+						for k, vs := range e.rHdr {
+							if len(vs) == 1 && (len(tc.rHdr[k]) != 1 || tc.rHdr[k][0] != vs[0]) {
+								q.SetHeader(k, vs[0])
+							}
+						}
+					case "cookie":
+						q.SetCookies(e.cCk[len(e.cCk)-1])
+					case "body":
+						if e.bodyKind == "bytes" && tc.bodyKind != "none" {
+							q.SetBodyBytes(e.body)
+						}
+					case "url":
+						if tc.useBase {
+							q.SetURL(e.path)
+						} else {
+							q.SetURL(o.base + e.path)
+						}
+					}
+				}
+			})
+		}
 	}
 	_, err := r.Send(tc.method, target)
 	return err
@@ -569,8 +775,13 @@ func TestVerif_C01_e2e(t *testing.T) {
 			}
 			return "", false
 		}()
-		human := fmt.Sprintf("retries=%d ", tc.retries) + fmt.Sprintf("%q %q rpath=%q cpath=%q rq=%q cq=%q rhdr=%d chdr=%q nc=%q ck=%s/%s host=%q body=%s/%d order=%q pseudo=%q base=%v comp=%v ka=%v",
+		human := fmt.Sprintf("retries=%d edit=%q cookie-lines=%q/%q/%q ", tc.retries, tc.edit, tc.rHdr["Cookie"], tc.ncCookie, tc.cHdr["Cookie"]) + fmt.Sprintf("%q %q rpath=%q cpath=%q rq=%q cq=%q rhdr=%d chdr=%q nc=%q ck=%s/%s host=%q body=%s/%d order=%q pseudo=%q base=%v comp=%v ka=%v",
 			tc.method, tc.path, tc.rPath, tc.cPath, tc.rQuery, tc.cQuery, len(tc.rHdr), tc.cHdr, tc.nonCanon, c01Cookies(tc.rCk), c01Cookies(tc.cCk), tc.hostHdr, tc.bodyKind+c01ReadDesc(tc), len(tc.body), tc.order, tc.pseudo, tc.useBase, comp, ka)
+		editedMayFail := false
+		if tc.edited != nil && tc.useBase {
+			_, eruri, _, _, _ := c01Expected(tc.edited)
+			editedMayFail = strings.HasPrefix(eruri, "//")
+		}
 		views := map[string]string{}
 		allSeen := true
 		class := ""
@@ -581,16 +792,47 @@ func TestVerif_C01_e2e(t *testing.T) {
 			seen := o.take()
 			s.Count(p + ":fired")
 			if len(seen) != 1+tc.retries {
-				allSeen = false
-				views[p] = fmt.Sprintf("<%d requests seen, err=%v>", len(seen), err)
-				continue
+				if editedMayFail && len(seen) == 1 && err != nil {
+					// the EDITED description is a relative URL whose first path parameter is empty
+					// ("//…": url.Parse takes what follows for an authority and may reject it): the
+					// call fails at the edited attempt, nothing of it reaches the wire — the first
+					// attempt is judged alone
+					s.Count("err-empty-first-segment-after-edit")
+				} else {
+					allSeen = false
+					views[p] = fmt.Sprintf("<%d requests seen, err=%v>", len(seen), err)
+					continue
+				}
 			}
-			// every retried attempt must be the very request the first attempt was
+			// every retried attempt must be the very request the first attempt was — or, when a
+			// retry hook changed the description in between, the request the CURRENT description
+			// stands for (oracle view of the edited spec)
 			retryDiff := ""
 			for k := 1; k < len(seen); k++ {
 				s.Count("retried-attempt")
-				if a, b := c01View(seen[k], callerAE), c01View(seen[0], callerAE); a != b || seen[k].host != seen[0].host {
-					retryDiff = fmt.Sprintf("\nATTEMPT %d differs from attempt 1:\n%s", k+1, a)
+				a, b := c01View(seen[k], callerAE), c01View(seen[0], callerAE)
+				what := "differs from attempt 1"
+				if tc.edited != nil {
+					s.Count("edited-attempt")
+					for _, f := range strings.Split(tc.edit, "+") {
+						s.Count("edit:" + f)
+					}
+					em, eruri, elines, ebody, _ := c01Expected(tc.edited)
+					if pathPart, rest, _ := strings.Cut(eruri, "?"); tc.useBase && pathPart == "//" {
+						// "//" alone collapses to "/" (see below: empty-segments-collapsed)
+						eruri = "/"
+						if rest != "" {
+							eruri += "?" + rest
+						}
+					}
+					b = fmt.Sprintf("%s %s\n%s\nbody %s", em, eruri, strings.Join(elines, "\n"), c01Blob(ebody))
+					what = "is not the request described after the retry hook's edit (" + tc.edit + "); described:\n" + b + "\narrived:"
+				}
+				if len(tc.ncCookie) > 0 {
+					a, b = c01SortCookies(a), c01SortCookies(b)
+				}
+				if a != b || seen[k].host != seen[0].host {
+					retryDiff = fmt.Sprintf("\nATTEMPT %d %s\n%s", k+1, what, a)
 				}
 			}
 			wantHost := tc.hostHdr
@@ -608,7 +850,21 @@ func TestVerif_C01_e2e(t *testing.T) {
 			}
 			s.Case("c01ruri "+verifh.Hex(mRaw)+" "+c01PMap(tc.rPath)+" "+c01PMap(tc.cPath)+" _ "+verifh.Hex(mBase)+" "+c01QMap(tc.cQuery)+" "+c01QMap(tc.rQuery),
 				"ruri="+verifh.Hex(seen[0].ruri), true, mClass, false, p+" "+human)
+			if tc.edited != nil && len(seen) > 1 {
+				eRaw, eClass := o.base+tc.edited.path, ""
+				if tc.useBase {
+					eRaw = tc.edited.path
+				}
+				if c01E2ERawPathClass(tc.edited) {
+					eClass = "rawpath-dropped"
+				}
+				s.Case("c01ruri "+verifh.Hex(eRaw)+" "+c01PMap(tc.edited.rPath)+" "+c01PMap(tc.edited.cPath)+" _ "+verifh.Hex(mBase)+" "+c01QMap(tc.edited.cQuery)+" "+c01QMap(tc.edited.rQuery),
+					"ruri="+verifh.Hex(seen[1].ruri), true, eClass, false, p+" attempt 2 after edit "+tc.edit+" "+human)
+			}
 			v := c01View(seen[0], callerAE)
+			if len(tc.ncCookie) > 0 {
+				v = c01SortCookies(v)
+			}
 			if seen[0].host != wantHost {
 				v += "\nHOST " + seen[0].host + " want " + wantHost
 			}
@@ -633,8 +889,18 @@ func TestVerif_C01_e2e(t *testing.T) {
 		if !ok {
 			detail = "--- expected:\n" + want + detail
 			// known finding C01-1: literal segment with a byte that needs escaping + an escaped parameter
-			if c01E2ERawPathClass(tc) {
+			if c01E2ERawPathClass(tc) || (tc.edited != nil && c01E2ERawPathClass(tc.edited)) {
 				class = "rawpath-dropped"
+			}
+			// known finding C01-4: several "Cookie" field lines + cookie objects
+			if c01CookieLinesFoldedClass(tc) || (tc.edited != nil && c01CookieLinesFoldedClass(tc.edited)) {
+				class = "cookie-lines-folded"
+			}
+		}
+		if len(tc.rHdr["Cookie"]) > 1 || len(tc.cHdr["Cookie"]) > 1 || len(tc.ncCookie) > 1 {
+			s.Count("cookie-lines")
+			if len(tc.rCk)+len(tc.cCk) > 0 {
+				s.Count("cookie-lines+objects")
 			}
 		}
 		if len(tc.body) >= 4095 {
@@ -648,7 +914,7 @@ func TestVerif_C01_e2e(t *testing.T) {
 		}
 		s.Observe(fmt.Sprintf("e2e-%d", i), ok, class, allSeen, human, detail)
 	}
-	s.Need(t, "h1:fired", "h2:fired", "h3:fired", "body>=4K", "header-order", "retried-attempt")
+	s.Need(t, "h1:fired", "h2:fired", "h3:fired", "body>=4K", "header-order", "retried-attempt", "edited-attempt", "edit:rpath", "edit:cpath", "edit:query", "edit:header", "edit:cookie", "edit:body", "edit:url", "cookie-lines", "cookie-lines+objects")
 	s.Finish()
 }
 
